@@ -4,6 +4,7 @@ import WellenModel.Proofs.Block
 import WellenModel.Proofs.Tables
 import WellenModel.Model.Spec
 import WellenModel.Proofs.Refine
+import WellenModel.Proofs.RefineAll
 /-!
 # C04 — storage is transparent: packing, compression and segmentation never alter data
 
@@ -283,6 +284,54 @@ theorem C04_store_refines_spec (c : Codec) (bits i : Nat) (hb2 : 2 ≤ bits) (hb
       have hx' := (Spec.canon_sublist _).subset hx
       obtain ⟨syms, d, h1, h2, h3⟩ := entryOf_decodes bits hb2 sigS x.1 x.2 (hwf x hx')
       exact ⟨syms, d, h1, h2, h3⟩
+
+/-- **the store refines the specification — every signal type of the VCD path** (vectors, one-bit signals, reals, strings): the
+finished store has the time table of `Spec.run`, and loading signal `i` yields exactly `Spec.run`'s change list for it: the time
+index of every change and, per change, the entry of its value (`C04_entries_of_values`: the string's bytes, the double's 8
+bytes, the one-bit code byte, the aligned packed symbols). Hypotheses: the signal is written through VCD tokens / `real`
+operations (`hraw`: not through the pre-encoded GHW path), parsed reals are 8 bytes, no block beyond 2^36 bytes. -/
+theorem C04_store_refines_spec_all (c : Codec) (i : Nat) (hbm : 1 ≤ c.blockMax) (hbmax : c.blockMax ≤ 2 ^ 28)
+    (tps : List SigType) (tpe : SigType) (hw : ∀ b, tpe = .bitvec b → 1 ≤ b) (hti : tps[i]? = some tpe) (ops : List Spec.Op)
+    (hraw : ∀ op ∈ ops, ∀ st b, op ≠ .raw i st b)
+    (hreal : ∀ op ∈ ops, ∀ j v r, op = .vcd j v (some r) → r.length = 8)
+    (e : Enc) (he : Spec.runOps c (newEnc tps) ops = some e)
+    (tt : List Nat) (sigs : List (List (Nat × Spec.Value))) (hrun : Spec.run tps ops = some (tt, sigs))
+    (hsmall : ∀ b ∈ (finish c e).1.blocks, b.data.length < 2 ^ 36) :
+    (finish c e).2 = tt ∧
+    ∃ sigS chg, sigs[i]? = some chg ∧
+      loadSignal (finish c e).1 i tpe =
+        some { maxStates := sigS, times := chg.map (·.1),
+               entries := chg.map (fun x => (kindFor tpe hw).entry sigS (encVK (kindFor tpe hw) x)) } ∧
+      ∀ x ∈ chg, WFK (kindFor tpe hw) sigS x.2 := by
+  obtain ⟨s, hs, htt, hsigs⟩ := run_fold tps ops tt sigs hrun
+  constructor
+  · obtain ⟨hi0, ht0⟩ := Spec.newEnc_inv tps
+    obtain ⟨hi, ht⟩ := Spec.runOps_table c ops (newEnc tps) e [] hi0 (by rw [ht0]; rfl) he
+    rw [Spec.finish_table c e hi, ht, htt]
+    have := spec_table tps.toArray ops (specInit tps) s [] rfl hs
+    rw [this]
+  · have hti' : tps[i]? = some (kindFor tpe hw).tpe := by rw [kindFor_tpe]; exact hti
+    obtain ⟨sigS, hload, hwf⟩ := store_load_canonK (kindFor tpe hw) (kindFor_ok tpe hw) c i hbm hbmax tps hti' ops hraw hreal e he s hs hsmall
+    rw [kindFor_tpe] at hload
+    have hext := Spec.fold_ext tps.toArray ops (specInit tps) s rfl hs
+    have hsize : s.changesRev.size = tps.length := by rw [hext.size]; simp [specInit]
+    have hilt : i < tps.length := (List.getElem?_eq_some_iff.mp hti).1
+    have hget : s.changesRev.getD i [] = s.changesRev.toList[i]'(by simpa [hsize] using hilt) := by
+      simp [Array.getD_eq_getD_getElem?, hsize, hilt]
+    refine ⟨sigS, Spec.canon (s.changesRev.getD i []).reverse, ?_, hload, ?_⟩
+    · rw [hsigs, List.getElem?_map, hget]
+      simp [hsize, hilt]
+    · intro x hx
+      exact hwf x ((Spec.canon_sublist _).subset hx)
+
+/-- what the entries are, per signal type -/
+theorem C04_entries_of_values (sigS : States) (k : Nat) :
+    (∀ b, strKind.entry sigS (encVK strKind (k, .str b)) = b) ∧
+    (∀ le, realKind.entry sigS (encVK realKind (k, .real le)) = le) ∧
+    (∀ b, bitKind.entry sigS (encVK bitKind (k, .bits [b])) = oneBitEntry b) ∧
+    (∀ bits hb2 syms, (vecKind bits hb2).entry sigS (encVK (vecKind bits hb2) (k, .bits syms)) =
+      alignEntry sigS (Spec.kindOf syms) bits (writeNState (Spec.kindOf syms) syms none)) :=
+  ⟨fun _ => rfl, fun _ => rfl, fun _ => rfl, fun _ _ _ => rfl⟩
 
 /-! non-vacuity of `C04_store_refines_spec`: a history with a repeated and a backwards timestamp, a redundant write, a shortened
 token, a second signal of another type and a block roll-over (block size 2) is accepted by the store and by the specification -/
